@@ -615,7 +615,9 @@ def outcomes_from(o, r, kind, native, e2, Outcome):
         else:
             outs.append(Outcome(o["id"], "mirsym", "inconclusive", "; ".join(r["unknown"][:3])[:300],
                                 queries=r["queries"], solver_s=r["solver_s"], sample=sample))
-            return outs
+            if not r["violations"]:
+                return outs
+            # violations found next to paths without a verdict are still replayed and reported
     if not r["violations"]:
         outs.append(Outcome(o["id"], "mirsym", "holds", "", queries=r["queries"], solver_s=r["solver_s"],
                             nontrivial=r["paths"] >= 2, sample=sample, site=o.get("site")))
@@ -710,6 +712,9 @@ def build_scenario(kind, v):
         if kind == "iter":
             import e2_metric
             return e2_metric.iter_scenario(v)
+        if kind == "means":
+            import e2_means
+            return e2_means.scenario(v)
         if kind == "dot_preprocess":
             import e2_dot
             return e2_dot.scenario(v)
